@@ -120,9 +120,12 @@ def ribGet (rib : List DestObs) (p : Pfx) : List PathObs :=
 
 def rtMatch (v : Vrf) (p : PathObs) : Bool := p.rts.any (fun r => v.imp.contains r)
 
+/-- learned from a peer: neither the local (API) nor the kernel-redistribution source -/
+def peerLearned (src : Nat) : Bool := !(src == srcLocal || src == srcKernel)
+
 /-- number of peer-learned stored paths using next hop `a` -/
 def uses (rib : List DestObs) (a : Addr) : Nat :=
-  (rib.map (fun d => (d.paths.filter (fun p => isPeer p.src && p.nh == a)).length)).sum
+  (rib.map (fun d => (d.paths.filter (fun p => peerLearned p.src && p.nh == a)).length)).sum
 
 -- ---------------------------------------------------------------- per-step clauses
 
